@@ -279,6 +279,7 @@ Section Layer.
   Hypothesis R_step : forall m h e h' o, R m h -> inner h e = Some (h', o) -> exists m', imon m e o = (m', []) /\ R m' h'.
   Hypothesis panic_obs : forall h h' o, inner h [8%N] = Some (h', o) -> last o 0%N = 9%N.
   Hypothesis rel_obs : forall h i h' o, inner h [5%N; i] = Some (h', o) -> last o 0%N <> 9%N.
+  Hypothesis no7 : forall h e h' o, inner h e = Some (h', o) -> existsb (N.eqb 7%N) o = false.
 
   Definition RL (ml : M * lockers) (hl : H * lockers) : Prop := R (fst ml) (fst hl) /\ snd ml = snd hl.
 
@@ -309,7 +310,7 @@ Section Layer.
       destruct (ltranslate_7 _ _ _ _ _ Et) as [->|[i ->]].
       - rewrite (panic_obs _ _ _ Ei). reflexivity.
       - pose proof (rel_obs _ _ _ _ Ei) as Hn. destruct (N.eqb_spec (last o 0%N) 9); [congruence | reflexivity]. }
-    rewrite F, app_nil_r. eexists. split; [reflexivity|]. split; [exact HR' | reflexivity].
+    rewrite F, (no7 _ _ _ _ Ei). cbn [app]. eexists. split; [reflexivity|]. split; [exact HR' | reflexivity].
   Qed.
 
   Theorem layer_clean evs : forall ml hl i rep, RL ml hl ->
